@@ -483,3 +483,5 @@ def run(ctx):
                'the source bits of the lookup key are the master number of QQ: two masters with the same number share the '
                'definitions that are restricted to one of them')
     r7(ctx)
+    import rules.C09 as c09
+    c09.symbol_layout_rule(ctx, 'C08.R8')
